@@ -5,9 +5,11 @@ LEVEL = 'other'
 
 
 def check(ctx):
+    scaling.stateless(ctx, 'C19-R9')
     scaling.nan_safe(ctx, 'C19-R1')
     scaling.inverse_pairs(ctx, 'C19-R2')
     scaling.minrange(ctx, 'C19-R4')
+    scaling.interval_contains_data(ctx, 'C19-R10')
     scaling.continuity_offset_guard(ctx, 'C19-R5')
     scaling.step_continuity(ctx, 'C19-R6')
     scaling.given_parameters_honoured(ctx, 'C19-R7')
